@@ -27,6 +27,8 @@ type trialResult struct {
 	peak     int32
 	limit    int32
 	rejected int
+	// after a completed Resize: peak concurrency under fresh load, and the new size
+	peakAfter, limitAfter int32
 }
 
 // runPoolTrial: `n` workers all kept busy, `k` more tasks submitted with SubmitWait (they queue), then
@@ -160,9 +162,31 @@ func runPoolTrial(n, k int, action string, rng *rand.Rand, viaSubmitWait bool) t
 	if newSize > n {
 		res.limit = int32(newSize)
 	}
-	// after a resize the pool is running again: give re-enqueued work a moment, then stop
+	// after a resize the pool is running again with its new size: give re-enqueued work a moment, then load it with
+	// more tasks than the larger of the two sizes and measure how many run at once — the bound is the NEW size now
 	if action == "grow" || action == "shrink" {
 		time.Sleep(2 * time.Millisecond)
+		var cur2, peak2 int32
+		rel2 := make(chan struct{})
+		m := 2*n + 4
+		for i := 0; i < m; i++ {
+			p.Submit(func() interface{} {
+				c := atomic.AddInt32(&cur2, 1)
+				for {
+					o := atomic.LoadInt32(&peak2)
+					if c <= o || atomic.CompareAndSwapInt32(&peak2, o, c) {
+						break
+					}
+				}
+				<-rel2
+				atomic.AddInt32(&cur2, -1)
+				return nil
+			})
+		}
+		time.Sleep(15 * time.Millisecond)
+		close(rel2)
+		time.Sleep(3 * time.Millisecond)
+		res.peakAfter, res.limitAfter = atomic.LoadInt32(&peak2), int32(newSize)
 		p.Stop()
 	}
 	res.peak = atomic.LoadInt32(&peak)
@@ -206,6 +230,9 @@ func checkC20(r *Result, rng *rand.Rand, thorough bool) {
 		r.count(action)
 		if i < 3 {
 			r.sample(map[string]any{"workers": n, "queued": k, "action": action, "outcomes": tr.outcomes, "peak": tr.peak, "rejected": tr.rejected})
+		}
+		if tr.limitAfter > 0 && tr.peakAfter > tr.limitAfter {
+			r.violate(Violation{Class: "C20/over-concurrency-after-resize", What: fmt.Sprintf("after Resize(%d) had returned, %d tasks ran concurrently (%s)", tr.limitAfter, tr.peakAfter, key), Ops: []string{key}})
 		}
 		if tr.peak > tr.limit {
 			r.violate(Violation{Class: "C20/over-concurrency", What: fmt.Sprintf("%d tasks ran concurrently with pool size %d (%s)", tr.peak, tr.limit, key), Ops: []string{key}})
